@@ -100,7 +100,10 @@ func incrementBytes(in []byte) []byte {
 	for i := len(rv) - 1; i >= 0; i-- {
 		rv[i] = rv[i] + 1
 		if rv[i] != 0 {
-			return rv // didn't overflow, so stop
+			// didn't overflow, so stop; the bytes after i overflowed to 0x00
+			// and are dropped, otherwise keys between the truncated and the
+			// padded form (which do not carry the prefix) would be included
+			return rv[:i+1]
 		}
 	}
 	return nil // overflowed
